@@ -294,7 +294,7 @@ double64_be_read (const unsigned char *cptr)
 	lower = (cptr [5] << 16) | (cptr [6] << 8) | cptr [7] ;
 
 	if (exponent == 0 && upper == 0 && lower == 0)
-		return 0.0 ;
+		return negative ? -0.0 : 0.0 ;
 
 	dvalue = upper + lower / ((double) 0x1000000) ;
 
@@ -331,7 +331,7 @@ double64_le_read (const unsigned char *cptr)
 	lower = (cptr [2] << 16) | (cptr [1] << 8) | cptr [0] ;
 
 	if (exponent == 0 && upper == 0 && lower == 0)
-		return 0.0 ;
+		return negative ? -0.0 : 0.0 ;
 
 	dvalue = upper + lower / ((double) 0x1000000) ;
 
